@@ -19,6 +19,7 @@ type styleCfg struct {
 	dupPM    int
 	echoPM   int
 	victimMs int // extra delay for packets to / from the victim node (partition / slow link)
+	pvLateMs int // extra delay of PREVOTES (and POL vote lists) to the victim node
 	softS    float64
 }
 
@@ -30,6 +31,9 @@ func (nw *netw) style() styleCfg {
 		return styleCfg{delayMs: 40, heldPM: 30, dupPM: 40, echoPM: 10, victimMs: 1800, softS: 6}
 	case "slow":
 		return styleCfg{delayMs: 150, heldPM: 50, dupPM: 50, echoPM: 10, victimMs: 900, softS: 6}
+	case "pcfirst":
+		// precommits overtake prevotes on the way to the victim node
+		return styleCfg{delayMs: 40, heldPM: 30, dupPM: 40, echoPM: 10, softS: 6, pvLateMs: 1100}
 	case "benign":
 		return styleCfg{delayMs: 5, softS: 0.01}
 	}
@@ -66,6 +70,9 @@ func (nw *netw) schedulePacket(p *packet) {
 		}
 		if sc.victimMs > 0 && (i == nw.victim(p.H) || p.Src == nw.victim(p.H)) && nw.rnd.Intn(4) > 0 {
 			d += nw.rnd.Intn(sc.victimMs)
+		}
+		if sc.pvLateMs > 0 && i == nw.victim(p.H) && ((p.Kind == "vote" && p.V.Type == 0) || p.Kind == "votelist") && nw.rnd.Intn(5) > 0 {
+			d += 200 + nw.rnd.Intn(sc.pvLateMs)
 		}
 		ds.notBefore = now.Add(time.Duration(d) * time.Millisecond)
 		if nw.rnd.Intn(1000) < sc.heldPM {
@@ -133,13 +140,22 @@ func (nw *netw) pickDelivery() bool {
 		}
 		relaxed := nw.benign[r.traceH] || r.traceH <= maxF
 		var cand []*packet
+		pcFirst := nw.style().pvLateMs > 0 && r.idx == nw.victim(r.traceH)
 		for _, p := range nw.pool {
 			if nw.deliverable(r, p, now, relaxed) {
 				cand = append(cand, p)
-				if len(cand) >= 24 {
+				if len(cand) >= 24 && !pcFirst {
 					break
 				}
 			}
+		}
+		if pcFirst {
+			// this node hears of precommits before it hears of prevotes
+			sort.SliceStable(cand, func(i, j int) bool {
+				pi := cand[i].Kind == "vote" && cand[i].V.Type == 1
+				pj := cand[j].Kind == "vote" && cand[j].V.Type == 1
+				return pi && !pj
+			})
 		}
 		if len(cand) == 0 && relaxed && nw.catchUp(r, now) {
 			return true
@@ -316,11 +332,12 @@ type byzState struct {
 	acted map[string]bool
 	mine  []*packet // everything the Byzantine validators have made public
 	prop  map[string][]*blockInfo
+	lone  map[string][]int // (height/round) -> the nodes that got the second block of a split proposal
 	last  time.Time
 }
 
 func newByzState(nw *netw) *byzState {
-	return &byzState{nw: nw, acted: map[string]bool{}, prop: map[string][]*blockInfo{}}
+	return &byzState{nw: nw, acted: map[string]bool{}, prop: map[string][]*blockInfo{}, lone: map[string][]int{}}
 }
 
 type hr struct {
@@ -469,7 +486,11 @@ func (nw *netw) byzPropose(b int, k hr) {
 		return
 	}
 	bs.acted[key] = true
-	switch c := nw.rnd.Intn(100); {
+	c := nw.rnd.Intn(100)
+	if nw.style().pvLateMs > 0 && c < 70 {
+		c = 99 // mostly split proposals in this style
+	}
+	switch {
 	case c < 20: // silent
 		nw.note("byz %d silent as proposer of h=%d r=%d", b, k.h, k.r)
 	case c < 60: // one block to everybody
@@ -484,6 +505,16 @@ func (nw *netw) byzPropose(b int, k hr) {
 			return
 		}
 		g1, g2 := nw.randomGroups()
+		if nw.style().pvLateMs > 0 || nw.rnd.Intn(3) == 0 {
+			// one real node alone gets the first block (completely), the rest the second
+			v := nw.victim(k.h)
+			g1, g2 = []int{v}, nil
+			for _, i := range nw.reals {
+				if i != v {
+					g2 = append(g2, i)
+				}
+			}
+		}
 		if len(g1) > 0 {
 			nw.injectProposal(b, k.h, k.r, -1, b1, g1, true)
 		}
@@ -491,6 +522,10 @@ func (nw *netw) byzPropose(b int, k hr) {
 			nw.injectProposal(b, k.h, k.r, -1, b2, g2, true)
 		}
 		bs.prop[fmt.Sprintf("%d/%d", k.h, k.r)] = []*blockInfo{b1, b2}
+		if len(g1) == 1 {
+			// the rest is to decide the second block; the lone node is to learn it from the precommits
+			bs.lone[fmt.Sprintf("%d/%d", k.h, k.r)] = g2
+		}
 		nw.note("byz %d proposes two blocks at h=%d r=%d: #%d to %v, #%d to %v", b, k.h, k.r, b1.ID, g1, b2.ID, g2)
 	}
 }
@@ -504,6 +539,17 @@ func (nw *netw) byzVote(b int, k hr, typ int) {
 	}
 	bs.acted[key] = true
 	vt := consensus.VoteType(typ)
+	if g2, ok := bs.lone[fmt.Sprintf("%d/%d", k.h, k.r)]; ok && nw.proposer(k.h, k.r) == b {
+		// after "X to one node, Y to the rest": vote Y with the rest; the lone node
+		// gets the precommit only
+		y := bs.prop[fmt.Sprintf("%d/%d", k.h, k.r)][1]
+		to := g2
+		if typ == 1 {
+			to = nil
+		}
+		bs.mine = append(bs.mine, nw.injectVote(nw.mkVote(b, vt, k.h, k.r, y, nw.nowMicro()), to))
+		return
+	}
 	// the value a correct validator would most plausibly vote for
 	var main *blockInfo
 	if props := nw.proposalsOf(k.h, k.r); len(props) > 0 {
